@@ -270,10 +270,15 @@ theorem generated_consts :
     Gen.BkgConsts.sexMeanOverrideFirst = true ∧ Gen.BkgConsts.sexMedianOverrideGuarded = true ∧
     Gen.BkgConsts.thresholdIsFractionOfFullBox = true ∧ Gen.BkgConsts.exclusionRule = "lt-or-zero" ∧
     Gen.BkgConsts.exclusionComparesNgood = true ∧ Gen.BkgConsts.zoomClipsToMeshRange = true ∧
-    Gen.BkgConsts.coverageGetsFill = true := by
-  refine ⟨?_, ?_, by decide, rfl, rfl, rfl, rfl, by decide, rfl, rfl, rfl⟩
+    Gen.BkgConsts.coverageGetsFill = true ∧ Gen.BkgConsts.thresholdExactWhenInteger = true := by
+  refine ⟨?_, ?_, by decide, rfl, rfl, rfl, rfl, by decide, rfl, rfl, rfl, rfl⟩
   · unfold Gen.BkgConsts.sexMedianFactor Gen.BkgConsts.sexMeanFactor; norm_num
   · unfold Gen.BkgConsts.sexRatio; norm_num
+
+/-- defect F41 in binary64 (kernel-evaluated): the former spelling `(1 - p/100) * npix` overshoots the integer threshold 3 for
+    p = 70, npix = 10, so a box with exactly 70 % masked pixels (3 good ones) was excluded; `(100 - p) * npix / 100` is exact -/
+example : ((1 - (70.0 : Float) / 100.0) * 10.0 > 3.0) = true := by decide +kernel
+example : (((100.0 : Float) - 70.0) * 10.0 / 100.0 == 3.0) = true := by decide +kernel
 
 /-! ### exclusion rule -/
 
